@@ -496,6 +496,11 @@ func JoinSliceItem(id, a string, str bool) FItem {
 	} else {
 		fmt.Fprintf(&body, "\t\tfor n := -1; n <= 5; n++ {\n\t\t\tfor variant := 0; variant < 4; variant++ {\n\t\t\t\tvar lol [][]%s\n\t\t\t\tif n >= 0 {\n\t\t\t\t\tlol = make([][]%s, n)\n\t\t\t\t}\n\t\t\t\tvar want []%s\n\t\t\t\tfor i := range lol {\n\t\t\t\t\tm := (i*3 + variant*2 + n) %% 4 // inner length 0..3, nil when variant says so\n\t\t\t\t\tif m == 0 && (variant+i)%%2 == 0 {\n\t\t\t\t\t\tcontinue // nil inner list\n\t\t\t\t\t}\n\t\t\t\t\tlol[i] = make([]%s, m, m+1)\n\t\t\t\t\tfor j := range lol[i] {\n\t\t\t\t\t\tlol[i][j] = mon.Arg[%s](t, i, j+variant)\n\t\t\t\t\t}\n\t\t\t\t\twant = append(want, lol[i]...)\n\t\t\t\t}\n\t\t\t\tbefore := mon.CanonOf(lol)\n\t\t\t\tcl := fmt.Sprintf(\"join-slice/outer%%d\", n)\n\t\t\t\tout := deriveJoin%s(lol)\n\t\t\t\tmon.Same(t, cl+\"/len\", len(out), len(want))\n\t\t\t\tfor i := 0; i < len(out) && i < len(want); i++ {\n\t\t\t\t\tmon.Same(t, cl+\"/element\", out[i], want[i])\n\t\t\t\t}\n\t\t\t\tif lol == nil {\n\t\t\t\t\tif out != nil {\n\t\t\t\t\t\tt.Bad(cl+\"/nil-for-nil\", \"join of a nil list of lists is not nil\")\n\t\t\t\t\t} else {\n\t\t\t\t\t\tt.Ok(cl + \"/nil-for-nil\")\n\t\t\t\t\t}\n\t\t\t\t}\n\t\t\t\tmon.Same(t, cl+\"/input-unmodified\", mon.CanonOf(lol), before)\n\t\t\t\tmon.NoteAlias(t, \"join-slice/result-aliases-an-input\", out, lol)\n\t\t\t}\n\t\t}\n", a, a, a, a, a, id)
 	}
+	if !str {
+		// inner lists that are windows of ONE buffer (with spare capacity behind it), joined out of buffer
+		// order, and a first list whose spare capacity could hold the whole result
+		fmt.Fprintf(&body, "\t\tfor n := 2; n <= 4; n++ {\n\t\t\tfor variant := 0; variant < 2; variant++ {\n\t\t\t\tbuf := make([]%[1]s, 2*n, 2*n+3+16*variant)\n\t\t\t\tfor j := range buf {\n\t\t\t\t\tbuf[j] = mon.Arg[%[1]s](t, j/2, j%%2+n)\n\t\t\t\t}\n\t\t\t\tlol := make([][]%[1]s, n)\n\t\t\t\tvar want []%[1]s\n\t\t\t\tfor i := range lol {\n\t\t\t\t\tw := (n - i) %% n // windows 0, n-1, n-2, .., 1\n\t\t\t\t\tif variant == 1 {\n\t\t\t\t\t\tlol[i] = buf[2*w : 2*w+2 : 2*w+2]\n\t\t\t\t\t\tif i == 0 {\n\t\t\t\t\t\t\tlol[i] = buf[0:2] // only the first keeps the capacity of the whole buffer\n\t\t\t\t\t\t}\n\t\t\t\t\t} else {\n\t\t\t\t\t\tlol[i] = buf[2*w : 2*w+2]\n\t\t\t\t\t}\n\t\t\t\t\twant = append(want, lol[i]...)\n\t\t\t\t}\n\t\t\t\tbefore := mon.CanonOf(lol)\n\t\t\t\tcl := fmt.Sprintf(\"join-slice/windows%%d\", n)\n\t\t\t\tout := deriveJoin%[2]s(lol)\n\t\t\t\tmon.Same(t, cl+\"/len\", len(out), len(want))\n\t\t\t\tfor i := 0; i < len(out) && i < len(want); i++ {\n\t\t\t\t\tmon.Same(t, cl+\"/element\", out[i], want[i])\n\t\t\t\t}\n\t\t\t\tmon.Same(t, cl+\"/input-unmodified\", mon.CanonOf(lol), before)\n\t\t\t}\n\t\t}\n", a, id)
+	}
 	kind := "join-slice"
 	if str {
 		kind = "join-string"
@@ -511,7 +516,19 @@ func JoinSliceItem(id, a string, str bool) FItem {
 // MemItem: deriveMem(f) over signature s.
 func MemItem(id string, s FSig) FItem {
 	var sb strings.Builder
-	sb.WriteString(implDecl(id, s.P, s.R, false))
+	if n := len(s.R); n > 0 && s.R[n-1] == "error" {
+		// a function that fails for about half of its argument tuples, deterministically: a failure is a
+		// result like any other and the function must not be asked again for the same arguments
+		as := vars("a", 0, len(s.P))
+		fmt.Fprintf(&sb, "func impl%s(%s)%s {\n\tmon.Log(%q%s)\n", id, namedParams(s.P, "a", 0), resList(s.R), id, prefixComma(as))
+		var rets []string
+		for i, t := range s.R[:n-1] {
+			rets = append(rets, fmt.Sprintf("mon.Ret[%s](%q, %d%s)", t, id, i, prefixComma(as)))
+		}
+		fmt.Fprintf(&sb, "\treturn %s\n}\n\n", join(append(rets, fmt.Sprintf("mon.FailFor(%q%s)", id, prefixComma(as)))))
+	} else {
+		sb.WriteString(implDecl(id, s.P, s.R, false))
+	}
 	fmt.Fprintf(&sb, "var F%s %s = impl%s\n\n", id, ftypeOf(s.P, 0, s.R, s.Mode), id)
 	as := vars("a", 0, len(s.P))
 	rs, ds := vars("r", 0, len(s.R)), vars("d", 0, len(s.R))
@@ -571,4 +588,59 @@ func RandSig(r *rand.Rand, minP, maxP, maxR int, alphabet []string) FSig {
 		s.R = append(s.R, alphabet[r.Intn(len(alphabet))])
 	}
 	return s
+}
+
+// MemReentrantItem: the memoized function is recursive THROUGH its memoized form (the classic use of
+// memoization). Some of the recursive calls are made with an argument that collides with the outer
+// one under a 31-fold polynomial hash ("Aa"/"BB" have the same hash; a leading -510 takes an
+// accumulator seeded with 17 back to 17), so that the inner call lands in the outer call's bucket
+// while the outer call is still in flight.
+func MemReentrantItem(id, elem string) FItem {
+	tmpl := `var RM@ID func([]@T) int64 // int64 results: no other Mem item has this signature
+
+// impl@ID logs its call and recurses through the memoized function RM@ID.
+func impl@ID(l []@T) int64 {
+	mon.Log("@ID", l)
+@REC(RM@ID, )
+}
+
+// plain@ID is the same function recursing directly; seen collects every argument it is evaluated on.
+func plain@ID(l []@T, seen map[string]bool) int64 {
+	seen[mon.CanonOf(l)] = true
+	self := func(x []@T) int64 { return plain@ID(x, seen) }
+@REC(self, )
+}
+
+`
+	var rec, seqs string
+	if elem == "string" {
+		rec = "\tif len(l) > 0 && l[0] == \"Aa\" {\n\t\treturn 1 + F(append([]string{\"BB\"}, l[1:]...))\n\t}\n\tif len(l) > 1 {\n\t\treturn int64(len(l[0])) + 2*F(l[1:])\n\t}\n\treturn int64(len(l))"
+		seqs = `[][]string{{"Aa", "x"}, {"BB", "x"}, {"Aa", "x"}, {"x"}, {"Aa"}, {"BB"}, {"Aa"}, {"q", "Aa", "z"}, {"Aa", "z"}, {"BB", "z"}, nil, {}, {"q", "Aa", "z"}}`
+	} else {
+		rec = "\tif len(l) > 0 && l[0] == -510 {\n\t\treturn 1 + F(l[1:])\n\t}\n\tif len(l) > 1 {\n\t\treturn int64(l[0]) + 2*F(l[1:])\n\t}\n\treturn int64(len(l))"
+		seqs = `[][]int{{-510, 7, 8}, {7, 8}, {-510, 7, 8}, {8}, {-510}, {}, {-510, -510, 5}, {-510, 5}, {5}, {3, -510, 7, 8}, {1, 2, 3, 4, 5, 6}, {2, 3, 4, 5, 6}, nil, {-510, -510, 5}}`
+	}
+	src := strings.ReplaceAll(tmpl, "@REC(RM@ID, )", strings.ReplaceAll(rec, "F(", "RM@ID("))
+	src = strings.ReplaceAll(src, "@REC(self, )", strings.ReplaceAll(rec, "F(", "self("))
+	src = strings.NewReplacer("@ID", id, "@T", elem).Replace(src)
+	body := strings.NewReplacer("@ID", id, "@T", elem, "@SEQS", seqs).Replace(`		RM@ID = deriveMem@ID(impl@ID)
+		seen := map[string]bool{}
+		t.Reset()
+		for step, l := range @SEQS {
+			got := RM@ID(l)
+			t.Pause()
+			want := plain@ID(l, seen)
+			t.Resume()
+			mon.Same(t, "mem-reentrant/result", got, want)
+			if n := t.CallCount("@ID"); n > len(seen) {
+				t.Bad("mem-reentrant/at-most-once", "after %d top-level calls the function has been evaluated on %d distinct (Equal) arguments, recursion included, but was invoked %d times (last argument %s)", step+1, len(seen), n, mon.CanonOf(l))
+				break
+			} else {
+				t.Ok("mem-reentrant/at-most-once")
+			}
+		}
+`)
+	shape := "mem-reentrant/[]" + elem
+	tags := []string{"kind:mem-reentrant", "param:[]" + elem}
+	return FItem{ID: id, Kind: "mem-reentrant", Shape: shape, Tags: tags, Src: src + reg(id, shape, tags, body)}
 }
